@@ -1,6 +1,7 @@
 package scen
 
 import (
+	"encoding/json"
 	"fmt"
 	"sort"
 	"strings"
@@ -14,6 +15,7 @@ import (
 	"verif/mc/engine"
 	"verif/mc/env"
 
+	consumertypes "github.com/cosmos/interchain-security/v7/x/ccv/consumer/types"
 	providertypes "github.com/cosmos/interchain-security/v7/x/ccv/provider/types"
 	ccv "github.com/cosmos/interchain-security/v7/x/ccv/types"
 )
@@ -25,6 +27,9 @@ type XWorld struct {
 	CA    *env.ConsumerApp
 	Stats *engine.Stats
 	Delay int64 // a packet sent in sender block h is relayable once the sender is in block >= h+Delay
+	// optional edits a consumer chain makes to its own genesis before starting
+	ConsumerGenesis func(*consumertypes.GenesisState)
+	AppGenesis      []func(map[string]json.RawMessage)
 }
 
 // XNode is one world state. Maps are copied on clone; chain states are branched when touched.
@@ -86,7 +91,7 @@ func (w *XWorld) Boot(n *XNode, cid string) ([]abci.ValidatorUpdate, error) {
 	if err != nil {
 		return nil, err
 	}
-	st, vals, err := w.CA.Boot(chainID, gen, n.now(), nil)
+	st, vals, err := w.CA.Boot(chainID, gen, n.now(), w.ConsumerGenesis, w.AppGenesis...)
 	if err != nil {
 		return vals, err
 	}
@@ -388,4 +393,74 @@ func (w *XWorld) TimeoutP2C(n *XNode, cid string) (*env.Packet, error, string) {
 	l.P2C.Packets = l.P2C.Packets[1:]
 	n.P, n.L[cid] = p, l
 	return &pk, nil, ""
+}
+
+// OpenTransfer completes the handshake of the reward-transfer channel the consumer initiated when the
+// CCV channel was acknowledged (Try on the provider, Ack on the consumer, Confirm on the provider).
+func (w *XWorld) OpenTransfer(n *XNode, cid string) error {
+	l := n.L[cid]
+	n.touchP()
+	n.touchC(cid)
+	p, c := n.P, n.C[cid]
+	pk, ck := w.P.PApp.IBCKeeper, w.CA.CApp.IBCKeeper
+	l.XCChan = w.CA.K.GetDistributionTransmissionChannel(c.Ctx)
+	if l.XCChan == "" {
+		return fmt.Errorf("consumer has not initiated a transfer channel")
+	}
+	a := env.HandshakeArgs{Order: channeltypes.UNORDERED, Version: "ics20-1", PPort: "transfer", CPort: "transfer", PHops: []string{l.PConn}, CHops: []string{l.CConn}}
+	pch, err := env.ChanOpenTry(&p, pk, &l, a, l.XCChan)
+	if err != nil {
+		return fmt.Errorf("transfer try: %w", err)
+	}
+	l.XPChan = pch
+	if err := env.ChanOpenAck(&c, ck, "transfer", l.XCChan, pch, "ics20-1"); err != nil {
+		return fmt.Errorf("transfer ack: %w", err)
+	}
+	if err := env.ChanOpenConfirm(&p, pk, "transfer", pch); err != nil {
+		return fmt.Errorf("transfer confirm: %w", err)
+	}
+	l.XStage = 4
+	n.P, n.C[cid], n.L[cid] = p, c, l
+	return nil
+}
+
+// DeliverXfer delivers the oldest reward-transfer packet to the provider.
+func (w *XWorld) DeliverXfer(n *XNode, cid string) (*env.Packet, *env.RecvResult) {
+	l := n.L[cid]
+	if len(l.XC2P.Packets) == 0 {
+		return nil, nil
+	}
+	pk := l.XC2P.Packets[0]
+	if !w.relayable(pk.SentHeight, n.C[cid].Height()) {
+		return nil, nil
+	}
+	n.touchP()
+	p := n.P
+	res := env.Recv(&p, w.P.PApp.IBCKeeper, pk.P)
+	if res.Err != nil {
+		debugOnce("DeliverXfer", res.Err)
+		return nil, &res
+	}
+	l.XC2P.Packets = l.XC2P.Packets[1:]
+	l.XC2P.Acks = append(l.XC2P.Acks, env.Ack{P: pk.P, Bytes: res.Ack, WrittenAt: p.Height()})
+	n.P, n.L[cid] = p, l
+	return &pk, &res
+}
+
+// AckXfer relays the oldest acknowledgement of a reward transfer back to the consumer.
+func (w *XWorld) AckXfer(n *XNode, cid string) (*env.Ack, error, string) {
+	l := n.L[cid]
+	if len(l.XC2P.Acks) == 0 {
+		return nil, nil, ""
+	}
+	a := l.XC2P.Acks[0]
+	n.touchC(cid)
+	c := n.C[cid]
+	_, err, pan := env.AckPacket(&c, w.CA.CApp.IBCKeeper, a.P, a.Bytes)
+	if err != nil || pan != "" {
+		return &a, err, pan
+	}
+	l.XC2P.Acks = l.XC2P.Acks[1:]
+	n.C[cid], n.L[cid] = c, l
+	return &a, nil, ""
 }
